@@ -977,6 +977,45 @@ def g_peek( ctx ):
                          'the look-ahead leaves the item: its outcome depends on the octets of the following item, more symbols are pulled from the input than the limit of the enclosing parser allows, and at the end of the input StopIteration escapes ( RuntimeError, the connection is dropped where a bundle member with the same octets is answered )', func=f.name )
             else:
                 res.ok( src, lens[0], '%s: the %d-symbol look-ahead is taken only when the enclosing length announces at least %d ( %s )' % ( f.name, N, N, norm_text( ast.unparse( lens[0].test ))))
+    # ---- by value, whatever the look-ahead is written with: every predicate that takes symbols ( next( source ) anywhere in it ) is run on a
+    #      stand-in source holding 0 .. 6 symbols, the enclosing length announcing 6.  Unless it raises ( the parse then fails ), it leaves
+    #      the source exactly as it found it: an early `return` that forgets what was already taken loses those symbols - they count as
+    #      consumed, no state has received them
+    from .fold import run_block, Record, Raises
+    for rel in ( 'server/enip/parser.py', 'server/enip/device.py', 'server/enip/logix.py' ):
+        src = ctx.src( rel )
+        for f in ast.walk( src.tree ):
+            if not isinstance( f, ast.FunctionDef ) or 'source' not in [ a.arg for a in f.args.args + f.args.kwonlyargs ]:
+                continue
+            if not any( isinstance( c, ast.Call ) and call_name( c ) == 'next' and c.args and dotted( c.args[0] ) == 'source' for c in ast.walk( f )):
+                continue
+            n += 1
+            lost = None
+            for have in range( 0, 7 ):
+                syms = [ 0xD2, 0x00, 0x05, 0x00, 0x01, 0x02 ][:have]
+                q = list( syms ); ops = []
+                def take( s_ ):
+                    if not q:
+                        raise StopIteration()
+                    ops.append( 'next' ); return q.pop( 0 )
+                source = Record( push=lambda x: q.insert( 0, x ), peek=lambda: ( q[0] if q else None ), sent=0 )
+                env = { 'source': source, 'next': take, 'path': 'p', 'data': { 'p..length': 6, 'p.length': 6 }, 'kwds': {}, 'len': len, 'reversed': lambda a: list( reversed( a )) }
+                try:
+                    out = run_block( f.body, env, ignore_calls=( 'log', ))
+                except Raises:
+                    continue						# StopIteration and the like escape: the parse fails, nothing is decided on half a look-ahead
+                except NoFold as exc:
+                    if 'append' in str( exc ):
+                        raise AnalysisError( '%s: look-ahead outside the modelled subset: %s' % ( f.name, exc ))
+                    raise AnalysisError( '%s: look-ahead outside the modelled subset: %s' % ( f.name, exc ))
+                res.cells += 1
+                if q != syms and lost is None:
+                    lost = ( have, syms, list( q ), out )
+            if lost:
+                res.bad( src, f, '%s: with %d symbols left it ends by %s having taken %d of them for good' % ( f.name, lost[0], lost[3], len( lost[1] ) - len( lost[2] )),
+                         'symbols taken for a look-ahead and not pushed back are lost: they count in source.sent, no grammar state received them - the item completes with fewer octets than its length announces ( only when the input arrives in two blocks split inside the look-ahead )' )
+            else:
+                res.ok( src, f, '%s: whatever is left of the input, the look-ahead leaves the source as it found it, or fails' % f.name )
     if not n:
         raise AnalysisError( 'G-PEEK: no look-ahead predicate ( next( source ) in a function taking source ) found' )
     return res
